@@ -248,6 +248,10 @@ func (p *parameterBuilder) buildFromField(fld *types.Var, tpe types.Type, typabl
 	case *types.Slice:
 		return p.buildFromField(fld, ftpe.Elem(), typable.Items(), seen)
 	case *types.Map:
+		if typable.Schema() == nil {
+			// only a body parameter has a schema: swagger 2.0 has no other place for an object
+			return fmt.Errorf("field %s: a map can only be described as a body parameter (in: body)", fld.Name())
+		}
 		schema := new(spec.Schema)
 		typable.Schema().Typed("object", "").AdditionalProperties = &spec.SchemaOrBool{
 			Schema: schema,
